@@ -59,6 +59,13 @@ def run(args):
         if "insert" in kinds and ("record" in kinds or "ext" in kinds):
             R.distinct.add(kinds)
         desc = dict(kind=kind, n=n, ops=ops)
+        used = h % 2 == 1
+        if used:
+            try:
+                mod.to_jax()            # a module that has been used: its derived jax tables exist when it is copied
+            except Exception:
+                used = False
+        attrs0 = sorted(k for k, v in mod.__dict__.items() if v is not None)
         try:
             mp = pickle.loads(pickle.dumps(mod))
         except Exception as ex:
@@ -67,6 +74,22 @@ def run(args):
             md = copy.deepcopy(mod)
         except Exception as ex:
             R.spec_fail(dict(kind="deepcopy-fails", err=type(ex).__name__), f"deepcopy raises {type(ex).__name__}: {str(ex)[:150]}", desc, repr(ex)[:200]); continue
+        attrs1 = sorted(k for k, v in mod.__dict__.items() if v is not None)
+        if attrs1 != attrs0:
+            R.spec_fail(dict(kind="copying-changes-the-original"), f"pickle.dumps / deepcopy changed the attributes of the ORIGINAL module: lost {sorted(set(attrs0) - set(attrs1))}, gained {sorted(set(attrs1) - set(attrs0))}", desc, None)
+        if used:
+            # the step functions of original and copies agree without any further preparation
+            outs = []
+            for name, c in (("original", mod), ("pickle", mp), ("deepcopy", md)):
+                try:
+                    from jaxley.integrate import build_init_and_step_fn
+                    init_fn, _ = build_init_and_step_fn(c, voltage_solver="jax.sparse")
+                    st_, _ = init_fn([], None, None, 0.025)
+                    outs.append(np.asarray(st_["v"]))
+                except Exception as ex:
+                    R.spec_fail(dict(kind="copy-unusable", how=name, err=type(ex).__name__), f"after copying a used module, init_fn of the {name} raises {type(ex).__name__}: {str(ex)[:120]}", desc, repr(ex)[:200])
+            if len(outs) == 3 and not (np.array_equal(outs[0], outs[1], equal_nan=True) and np.array_equal(outs[0], outs[2], equal_nan=True)):
+                R.spec_fail(dict(kind="copy-differs", how="init_fn"), "init_fn of a copy returns different states", desc, None)
         for name, c in (("pickle", mp), ("deepcopy", md)):
             ac = alpha(c)
             if ac != a0:
@@ -112,12 +135,19 @@ def run(args):
     # ---------------- SWC cells: radius functions survive, set_ncomp after the round trip
     tmpdir = tempfile.mkdtemp(prefix="verif_c18_")
     try:
-        for t in range({"quick": 3, "thorough": 20}[args.tier]):
+        for t in range({"quick": 6, "thorough": 40}[args.tier]):
             path = os.path.join(tmpdir, f"m{t}.swc")
-            c13.write_swc(rng, path)
+            if t % 2 == 0:
+                c13.write_swc(rng, path)
+            else:                                   # generator of C16: single-point / multi-point somata, type changes, zero-length segments
+                import swc_diff
+                rows_, _ = swc_diff.gen_tree(rng); swc_diff.write_swc(path, rows_)
             cell = jx.read_swc(path, ncomp=int(rng.integers(1, 4)), max_branch_len=2000.0, assign_groups=True)
             cell.insert(HH())
-            cp, cd = pickle.loads(pickle.dumps(cell)), copy.deepcopy(cell)
+            try:
+                cp, cd = pickle.loads(pickle.dumps(cell)), copy.deepcopy(cell)
+            except Exception as ex:
+                R.spec_fail(dict(kind="pickle-fails", err=type(ex).__name__, module="swc"), f"pickle / deepcopy of an SWC cell raises {type(ex).__name__}: {str(ex)[:150]}", dict(swc=open(path).read()), repr(ex)[:200]); continue
             R.evaluations += 1
             b = int(rng.integers(0, len(cell.ncomp_per_branch))); nn = int(rng.integers(1, 5))
             for name, c in (("pickle", cp), ("deepcopy", cd)):
